@@ -1,4 +1,18 @@
-(* C03 — Fields a manager stops applying are removed.  Statements only. *)
+(* C03 — Fields a manager stops applying are removed.  Statements only; proofs in
+   Proofs/{RemoveMono,TreeFacts,MergeKeeps,PruneShape,ApplyPruneBase,ApplyPrune}.v on top of
+   the lemmas of C01 (Proofs/ApplyEffect.v ...).
+
+   GENERAL THEOREM (C03_abandoned_fields_are_removed), in the setting and with the side
+   conditions of C01_apply_takes_effect: a path p of the applier's previous record, with no
+   node of the new configuration at or beneath it and not in the
+   EnsureNamedFieldsAreMembers closure of the other managers' records, is ABSENT from the
+   result of a successful apply.  Proviso: if the live object has p, it has at or beneath
+   p a leaf other than an empty list -- an empty granular list is a node of the object that
+   no field set can mention, so prune adds it back and never sees it again
+   (C03_needs_a_visible_leaf refutes the statement without the proviso; such a path enters
+   a record only through an update or a configuration with an empty list, i.e. outside the
+   plain-configuration domain of C03).  The "merged form" states the proviso on the merged
+   object instead. *)
 From Coq Require Import List ZArith String Bool.
 From SMD Require Import Model.Value Model.PathSet Model.Updater.
 Import ListNotations.
@@ -13,3 +27,129 @@ Proof.
   intros r Hr. unfold prune. rewrite Hr. reflexivity.
 Qed.
 Print Assumptions C03_first_apply_prunes_nothing.
+
+(* ---- the general theorem ---- *)
+From Coq Require Import Arith Lia.
+From SMD Require Import Model.Order Model.PathElem Model.Schema Model.Walk Model.Validate Model.FieldSet Model.Remove Model.Merge Model.Compare
+  Model.Matcher Model.Reconcile Spec.PathsAsSets Spec.RefValid Spec.Resolve Spec.Agree Spec.Examples
+  Proofs.OrderLaws Proofs.PathSetLaws Proofs.SchemaOk Proofs.FieldSetBase Proofs.FieldSetPaths
+  Proofs.FieldSetWf Proofs.FieldSetLaws Proofs.RemoveAbsent Proofs.RemoveWf Proofs.ResolveLaws
+  Proofs.UpdaterLaws Proofs.UpdaterLaws2 Proofs.MergeLaws Proofs.MergeAgree
+  Proofs.RemoveFrame Proofs.EnLaws Proofs.NodeSet Proofs.KeyFields Proofs.VeqbResolve
+  Proofs.SetCheckers Proofs.ApplyEffect
+  Proofs.RemoveMono Proofs.TreeFacts Proofs.MergeKeeps Proofs.PruneShape Proofs.ApplyPruneBase Proofs.ApplyPrune.
+Theorem C03_abandoned_fields_are_removed :
+  forall (c : config) (R : typeref -> Prop) (ver : string) (live cfg : string * value)
+           (mf : managed) (mgr : string) (force : bool) (o : option tv) 
+           (mf' : managed) (last : mrec) (fscfg : pset) (p : path),
+         no_ignore c ->
+         conv_id c ->
+         schema_ok (schema_of c ver) R ->
+         family_refs (schema_of c ver) R ->
+         R (tr_of c ver) ->
+         keys_plain (schema_of c ver) R ->
+         fst live = ver ->
+         fst cfg = ver ->
+         single_version ver mf ->
+         mf_ok mf ->
+         records_current c ver mf ->
+         (forall r : mrec,
+          mf_get mgr mf = Some r -> applier_record_ok (schema_of c ver) (tr_of c ver) (mr_set r)) ->
+         (forall (m : string) (r : mrec),
+          m <> mgr ->
+          mf_get m mf = Some r ->
+          owns_live_keys (schema_of c ver) (tr_of c ver) (snd live) (mr_set r)) ->
+         wf_value (snd live) = true ->
+         wf_value (snd cfg) = true ->
+         conforms (schema_of c ver) (tr_of c ver) true (snd live) = true ->
+         conforms (schema_of c ver) (tr_of c ver) false (snd cfg) = true ->
+         plain (snd cfg) = true ->
+         granular (schema_of c ver) (tr_of c ver) (snd cfg) ->
+         apply_op c live cfg ver mf mgr force = UOk (o, mf') ->
+         mf_get mgr mf = Some last ->
+         to_field_set (schema_of c ver) (tr_of c ver) (snd cfg) = Some fscfg ->
+         wf_path p = true ->
+         p <> nil ->
+         ps_has p (mr_set last) = true ->
+         (forall q : path,
+          In q (map fst (nodes (schema_of c ver) (tr_of c ver) (snd cfg))) ->
+          is_prefix p q = false) ->
+         ps_has p (ps_en (schema_of c ver) (tr_of c ver) (others_union mgr mf)) = false ->
+         (present (schema_of c ver) (tr_of c ver) (snd live) p = true ->
+          exists (r : path) (tr' : typeref) (x : value),
+            wf_path r = true /\
+            resolve_path (schema_of c ver) (tr_of c ver) (snd live) (p ++ r) = Some (RNode tr' x) /\
+            leafy (schema_of c ver) tr' x /\ x <> VList nil) ->
+         present (schema_of c ver) (tr_of c ver)
+           match o with
+           | Some t => snd t
+           | None => snd live
+           end p = false.
+Proof. exact apply_removes_abandoned. Qed.
+Print Assumptions C03_abandoned_fields_are_removed.
+
+Theorem C03_abandoned_fields_are_removed_merged_form :
+  forall (c : config) (R : typeref -> Prop) (ver : string) (live cfg : string * value)
+           (mf : managed) (mgr : string) (force : bool) (o : option tv) 
+           (mf' : managed) (last : mrec) (p : path),
+         no_ignore c ->
+         conv_id c ->
+         schema_ok (schema_of c ver) R ->
+         family_refs (schema_of c ver) R ->
+         R (tr_of c ver) ->
+         keys_plain (schema_of c ver) R ->
+         fst live = ver ->
+         fst cfg = ver ->
+         single_version ver mf ->
+         mf_ok mf ->
+         records_current c ver mf ->
+         (forall r : mrec,
+          mf_get mgr mf = Some r -> applier_record_ok (schema_of c ver) (tr_of c ver) (mr_set r)) ->
+         (forall (m : string) (r : mrec),
+          m <> mgr ->
+          mf_get m mf = Some r ->
+          owns_live_keys (schema_of c ver) (tr_of c ver) (snd live) (mr_set r)) ->
+         wf_value (snd live) = true ->
+         wf_value (snd cfg) = true ->
+         conforms (schema_of c ver) (tr_of c ver) true (snd live) = true ->
+         conforms (schema_of c ver) (tr_of c ver) false (snd cfg) = true ->
+         plain (snd cfg) = true ->
+         apply_op c live cfg ver mf mgr force = UOk (o, mf') ->
+         mf_get mgr mf = Some last ->
+         wf_path p = true ->
+         p <> nil ->
+         ps_has p (mr_set last) = true ->
+         (forall q : path,
+          In q (map fst (nodes (schema_of c ver) (tr_of c ver) (snd cfg))) ->
+          is_prefix p q = false) ->
+         ps_has p (ps_en (schema_of c ver) (tr_of c ver) (others_union mgr mf)) = false ->
+         (forall M : value,
+          merge (schema_of c ver) (tr_of c ver) (snd live) (snd cfg) = Some (Some M) ->
+          present (schema_of c ver) (tr_of c ver) M p = true ->
+          ps_has p (node_set (schema_of c ver) (tr_of c ver) M) = true) ->
+         present (schema_of c ver) (tr_of c ver)
+           match o with
+           | Some t => snd t
+           | None => snd live
+           end p = false.
+Proof. exact apply_removes_abandoned_merged. Qed.
+Print Assumptions C03_abandoned_fields_are_removed_merged_form.
+
+Theorem C03_needs_a_visible_leaf :
+  ~ apply_removes_abandoned_original.
+Proof. exact apply_removes_abandoned_needs_visible. Qed.
+Print Assumptions C03_needs_a_visible_leaf.
+
+Theorem C03_example :
+  present ex_schema ex_rt ape_live
+           (PEField "items" :: PEKey (("name", VStr "x") :: nil) :: nil) = true /\
+         present ex_schema ex_rt ape_result
+           (PEField "items" :: PEKey (("name", VStr "x") :: nil) :: nil) = false /\
+         ps_has (PEField "mm" :: PEField "k" :: nil)
+           (mr_set {| mr_set := ape_set_a; mr_ver := "v1"; mr_applied := true |}) = true /\
+         ps_has (PEField "mm" :: PEField "k" :: nil)
+           (ps_en ex_schema ex_rt (others_union "a" ape_mf)) = true /\
+         present ex_schema ex_rt ape_result (PEField "mm" :: PEField "k" :: nil) = true.
+Proof. exact apply_removes_abandoned_example. Qed.
+Print Assumptions C03_example.
+
